@@ -210,7 +210,7 @@ class RealSchema:
     """the stored fields of the real schema that try_type_rewrite reads, by index
     (T_i -> i, L -> n)."""
 
-    def __init__(self, sch, c):
+    def __init__(self, sch, c, deep=False):
         from edb.schema import objtypes as s_objtypes
         self.sch = sch
         n = c['n']
@@ -220,9 +220,15 @@ class RealSchema:
         mine = {o.id for o in self.objs}
         # view types (aliases, computed globals) that hang below our types: they are children /
         # descendants as far as try_type_rewrite is concerned
-        views = [o for o in sch.get_objects(exclude_stdlib=True, type=s_objtypes.ObjectType)
-                 if o.is_view(sch) and any(b.id in mine for b in o.get_bases(sch).objects(sch))]
-        views.sort(key=lambda o: str(o.get_name(sch)))
+        if deep:
+            # a compile-time schema (ir.schema): also the view types derived for shapes, incl. views of views
+            views = [o for o in sch.get_objects(exclude_stdlib=True, type=s_objtypes.ObjectType)
+                     if o.is_view(sch) and any(a.id in mine for a in o.get_ancestors(sch).objects(sch))]
+            views.sort(key=lambda o: (len(o.get_ancestors(sch).objects(sch)), str(o.get_name(sch))))
+        else:
+            views = [o for o in sch.get_objects(exclude_stdlib=True, type=s_objtypes.ObjectType)
+                     if o.is_view(sch) and any(b.id in mine for b in o.get_bases(sch).objects(sch))]
+            views.sort(key=lambda o: str(o.get_name(sch)))
         for v in views:
             self.names.append('view:' + str(v.get_name(sch).name))
             self.objs.append(v)
@@ -1052,7 +1058,7 @@ def run(ctx: core.Ctx):
                     ks.add(f'{path}:{tag}')
                     ctx.fail(f'{k}:{path}:{tag}', f'SQL audit [{path}] {qtext!r}: {pb}',
                              {'case': c, 'queries': [[qtext, expect, path]], 'sdl': sdl})
-            pending.append(('entries', ci, tag, c, sdl, qtext, path, entries, None))
+            pending.append(('entries', ci, tag, c, sdl, qtext, path, entries, ir.schema))
             distinct.add((sline, qtext))
             if len(samples) < 4 and path != 'all-types' and rng.random() < 0.05:
                 samples.append({'sdl': sdl, 'query': qtext, 'rewrites': {f'{k}': (v[0] if v[0] != 'union' else v)
@@ -1237,22 +1243,51 @@ def run(ctx: core.Ctx):
                              {'case': c, 'sdl': sdl, 'globals': gv, 'type': int(t), 'model': mg,
                               'real': real_sel.get(int(t))}, no_input=True)
     # every other query's rewrite map must agree with the model's entries too
+    def same_entry(ent, real):
+        kind = ent.split(':')[0] if ent else None
+        return (kind == real[0]) and (kind != 'union' or
+                                      sorted((int(a), b == '1') for a, b in
+                                             (x.split('.') for x in ent[6:].split(','))) == real[1])
+
+    recheck = {}
     for item in pending:
-        _, ci, tag, c, sdl, qtext, path, entries, _ = item
+        _, ci, tag, c, sdl, qtext, path, entries, fsch = item
         me = model_entries.get(ci)
         if me is None or path == 'all-types':
             continue
         for key, real in entries.items():
             ent = me.get(f'{key[0]}.{1 if key[1] else 0}')
-            kind = ent.split(':')[0] if ent else None
-            same = (kind == real[0]) and (kind != 'union' or
-                                          sorted((int(a), b == '1') for a, b in
-                                                 (x.split('.') for x in ent[6:].split(','))) == real[1])
-            if not same:
+            if not same_entry(ent, real):
+                recheck.setdefault((ci, qtext), (item, []))[1].append((key, real, ent))
+    # try_type_rewrite looks at the schema *as it is during compilation*: view types derived for the
+    # shapes of the query are children/descendants too and can flip its overlap test.  An entry that
+    # differs from the model on the stored schema must agree with the model on the compile-time schema.
+    if recheck:
+        rlines, ritems = [], []
+        for (ci, qtext), (item, diffs) in recheck.items():
+            _, ci, tag, c, sdl, qtext, path, entries, fsch = item
+            try:
+                rs2 = RealSchema(fsch, c, deep=True)
+                rlines.append(f'S|{rs2.line()}|E')
+                ritems.append((item, diffs))
+            except Exception as e:
+                ctx.fail(f'corr-entry-q:{tag}:{path}', f'cannot read the compile-time schema: {e}',
+                         {'case': c, 'queries': [[qtext, [], path]], 'sdl': sdl}, no_input=True)
+        rmodel = ctx.driver('C07', rlines) if rlines else []
+        for (item, diffs), mout in zip(ritems, rmodel):
+            _, ci, tag, c, sdl, qtext, path, entries, fsch = item
+            me2 = dict(kv.split('=', 1) for kv in mout.split(';')) if mout != 'bad-op' else {}
+            for (key, real, ent) in diffs:
+                ent2 = me2.get(f'{key[0]}.{1 if key[1] else 0}')
+                if ent2 is not None and same_entry(ent2, real):
+                    stats['entries_explained_by_compile_time_views'] = \
+                        stats.get('entries_explained_by_compile_time_views', 0) + 1
+                    continue
                 n_dis += 1
                 ctx.fail(f'corr-entry-q:{tag}:{path}:{key}',
                          f'type_rewrites entry of query {qtext!r} differs from the model',
                          {'case': c, 'queries': [[qtext, [], path]], 'sdl': sdl, 'key': key, 'model': ent,
+                          'model_on_compile_time_schema': ent2,
                           'real': real[0] if real[0] == 'filter' else real}, no_input=True)
 
     if not proved:
